@@ -131,8 +131,20 @@ class MinMaxLengthType(DiagCodedType):
             is_highlow_byte_order=True,
         )
 
-        # TODO: ensure that the termination delimiter is not
-        # encountered within the encoded value.
+        # ensure that the termination delimiter is not encountered
+        # within the encoded value: the decoder stops at the first
+        # correctly aligned termination sequence located after the
+        # minimum length
+        if self.termination != Termination.END_OF_PDU:
+            termination_sequence = self.__termination_sequence()
+            term_pos = raw_value.find(termination_sequence, self.min_length, data_length)
+            while term_pos >= 0:
+                if term_pos % len(termination_sequence) == 0:
+                    odxraise(
+                        f"Encoded value for MinMaxLengthType must not contain the "
+                        f"termination sequence 0x{termination_sequence.hex()}", EncodeError)
+                    break
+                term_pos = raw_value.find(termination_sequence, term_pos + 1, data_length)
 
         odxassert(
             self.termination != Termination.END_OF_PDU or encode_state.is_end_of_pdu,
